@@ -595,6 +595,13 @@ func (g *pGen) failStmt(topLevel bool) string {
 		{"cond-fail", "if 1 / z > 0 { z = 1 }"},
 		{"arg-fail", "y := len([1 / z])"},
 		{"callname-fail", "y := z.foo(1)"},
+		// the leftmost operand of the failing operator is a constant identifier: the optimizer replaces
+		// it by a literal, which must keep the identifier's position
+		{"const-left-div", "const pk = 7; y := pk / z"},
+		{"const-left-sub", "const pk = 7; y := pk - fns"},
+		{"const-left-index", "const pk = \"s\"; y := pk[z + 9]"},
+		{"const-left-call", "const pk = 7; y := pk(z)"},
+		{"const-left-cmp", "const pk = 7; if pk < fns { z = 1 }"},
 	}
 	k := kinds[g.r.Intn(len(kinds))]
 	g.mark("fail:" + k.key)
